@@ -145,6 +145,10 @@ class AddedDiagLinearOperator(SumLinearOperator):
     def _init_cache(self):
         *batch_shape, n, k = self._piv_chol_self.shape
         self._noise = self._diag_tensor._diagonal().unsqueeze(-1)
+        # the diagonal may carry more (or larger) batch dimensions than the low-rank factor
+        batch_shape = torch.broadcast_shapes(torch.Size(batch_shape), self._noise.shape[:-2])
+        self._piv_chol_self = self._piv_chol_self.expand(*batch_shape, n, k)
+        self._noise = self._noise.expand(*batch_shape, n, 1)
 
         # the check for constant diag needs to be done carefully for batches.
         noise_first_element = self._noise[..., :1, :]
